@@ -63,5 +63,15 @@ CLAIMED = {
   "note": "KNOWN_FINDINGS.txt lists the straddle finding (signature = a match position p < |P| with p + 7 > |P|); any other prefix failure is a violation.",
   "technique": "Coq proof (scan-window invariant: every position examined exactly once); differential run over four real stream kinds, prefix families, decoys; tool file-vs-stdin oracle",
  },
+ "C18": {
+  "text": "Theorem list_output_clean: for ARBITRARY header contents (names, paths, link targets, method field of any member), every mode l/lv/v/vv, quiet level, pattern list, clock and localtime, every byte the model of the list commands writes is printable ASCII or LF; safe_output_allowed / safe_output_id; the tool's own literals (column names, OS names, month names regenerated from src/list.c) are printable by vm_compute. The test/extract/print commands (t, x, xn, xq0-2, p, e) are decided by the byte scan of the real tool's stdout+stderr only (no model of src/extract.c yet).",
+  "note": "Direct oracle independent of the model: every output byte of the sanitizer build of the tool on hostile archives must be in {0x20..0x7E, LF, CR, TAB}.",
+  "technique": "Coq proof (image of the sanitiser, every formatter, generated literals) for the list commands; output byte scan of the real tool in all modes",
+ },
+ "C19": {
+  "text": "ListOut.v is the executable statement of the Unix-LHA layout (columns regenerated from src/list.c). Theorems: list_output_rows (headings unless quiet >= 2, one row per member selected by the wildcards in archive order, each row a function of that member alone, footer), glob_correct (match_glob = the inductive '*'/'?' relation), selection_spec, footer_counts_and_sums (row count, true sums, ratio of sums), ratio_rounding_correct (exact nearest/ties-to-even decimal rounding of the binary32 ratio) and per-cell lemmas. Closed under the global context. The check compares the real tool byte for byte with the extracted reference.",
+  "note": "localtime is a parameter (gmtime_utc with TZ=UTC in the runs); binary32 arithmetic is Coq's SpecFloat; footer sums are size_t.",
+  "technique": "Coq proofs about the executable layout specification; byte-for-byte differential run of the real tool against the extracted reference rendering",
+ },
 }
 NOT_APPLICABLE = {("C%02d" % i): _PENDING for i in range(1, 21) if ("C%02d" % i) not in CLAIMED}
